@@ -861,6 +861,9 @@ package leader
 //@   on call handleHeartbeatFailure as c assert C07.demotes_only_on_real_failure: failed && classified && (isPerm || cfail >= 3)
 //@   loop 0 invariant C03.fail_count: 0 <= $v && $v <= 2 && $v == cfail
 //@   loop 0 invariant C03.no_pending_demotion: (failed ==> classified) && !(classified && isPerm) && !hbfCalled && !pendingCancel && onTrackedGoroutine
+//@   ghost tickerPeriodOK Bool = false
+//@   on call time.NewTicker as t set tickerPeriodOK = t.d == e.cfg.HeartbeatInterval
+//@   loop 0 invariant C03+C07.refresh_paced_by_the_heartbeat_interval: tickerPeriodOK
 //@   loop 0 invariant C12.count_is_streak: e.healthFailureCount == streak && 0 <= streak && streak < MaxHealth(e.cfg)
 //@   on return assert C03.demotion_on_exit: classified && (isPerm || cfail >= 3) ==> hbfCalled
 //@   ghost pendingCancel Bool = false
